@@ -183,6 +183,9 @@ class Unit:
                         walk(c, ctx + [name or '<anon>'] if k != 'ClassTemplateSpecializationDecl' else ctx + [(name or '') + self._targs(n)], n)
                     return
                 if k == 'EnumDecl':
+                    if not name:
+                        first = [c['name'] for c in n.get('inner', []) if c.get('kind') == 'EnumConstantDecl']
+                        q = '::'.join(ctx + ['anon_enum_' + (first[0] if first else nid)]); self.qname[nid] = q
                     self.enums[q] = n
                     for c in n.get('inner', []):
                         if c.get('kind') == 'EnumConstantDecl':
@@ -339,6 +342,8 @@ class Unit:
         if qt.startswith('const '): qt = qt[6:].strip(); const = 'const '
         if qt.endswith(' const'): qt = qt[:-6].strip(); const = 'const '
         if qt.startswith('volatile '): qt = qt[9:].strip()
+        if re.search(r'\((unnamed|anonymous) enum at [^)]*\)$', qt):
+            return (const + 'int' + (' ' + suffix if suffix else '') + ('*' if is_ref else '')), is_ref
         if '(' in qt and not qt.endswith('>'):
             raise Unsupported('function/pointer-to-function type ' + qt)
         base = self.resolve_named(qt)
@@ -414,11 +419,18 @@ class Unit:
         else:
             kw = 'struct'
         for f in self.record_fields(n):
+            if not f.get('name'): continue      # the implicit field of an anonymous union/struct
             txt, is_ref = self.decl_text(f, f['name'])
             lines.append('  %s;' % txt)
+        anon_done = set()
         for c in n.get('inner', []):
             if c.get('kind') in REC_KINDS and not c.get('name') and self.record_fields(c):
-                raise Unsupported('anonymous nested record in ' + q)
+                inner = []
+                for f in self.record_fields(c):
+                    txt, _ = self.decl_text(f, f['name']); inner.append('    %s;' % txt)
+                # C11 anonymous union/struct: members are accessed directly, exactly as in C++
+                lines = [l for l in lines if not re.match(r'^  \S.* ;$', l)]
+                lines.append('  %s {\n%s\n  };' % (c.get('tagUsed', 'struct'), '\n'.join(inner)))
         if not lines: lines.append('  char __empty;')
         extra = self.spec.get(('ghost_fields', cn))
         if extra: lines.append(extra)
@@ -667,6 +679,9 @@ class Unit:
             raise Unsupported('bound member function as value')
         if md in self.by_id and self.by_id[md]['kind'] == 'VarDecl':   # static data member
             return self.need_global(md)
+        if not n.get('name'):
+            # member access through the implicit field of an anonymous union/struct: transparent
+            return '(*%s)' % b if n.get('isArrow') else b
         if md not in self.by_id:
             if self.models:
                 r = self.models.member_access(self, n, b)
@@ -1379,7 +1394,9 @@ class Unit:
     def default_field_inits(self, rec, inits):
         """statements initialising every field (ctor-initialiser, else default member initialiser)"""
         body = []
+        direct = set(f.get('name') for f in self.record_fields(rec))
         for f in self.record_fields(rec):
+            if not f.get('name'): continue
             fname = f['name']; e = inits.get(fname)
             ks = self.kids(f)
             dflt = ks[0] if ks else None
@@ -1401,6 +1418,9 @@ class Unit:
                 for i, x in enumerate(self.kids(se)): body.append('self->%s[%d] = %s;' % (fname, i, self.expr(x)))
             else:
                 body.append('self->%s = %s;' % (fname, self.expr(e)))
+        for iname, e in inits.items():
+            if iname not in direct:     # member of an anonymous union/struct (IndirectFieldDecl)
+                body.append('self->%s = %s;' % (iname, self.expr(e)))
         return body
 
     def emit_func(self, cid):
@@ -1527,7 +1547,7 @@ class Unit:
         for cn in self.type_order:
             if cn.startswith('enum_'): parts.append(self.emitted_types[cn])
         for cn in self.type_order:
-            if not cn.startswith('enum_'): parts.append('struct %s;' % cn)
+            if not cn.startswith('enum_') and not cn.startswith('~'): parts.append('struct %s;' % cn)
         for cn in self.sorted_records(): parts.append(self.emitted_types[cn])
         pre = self.spec.get(('prelude',))
         if pre: parts.append(pre)
@@ -1551,6 +1571,11 @@ class Unit:
             for m in re.finditer(r'struct (\w+) (?!\*)', txt):
                 dep = m.group(1)
                 if dep != cn and dep in self.emitted_types: visit(dep)
+                if dep != cn and ('~' + dep) in self.emitted_types: visit('~' + dep)
+            if cn.startswith('~'):
+                # a container model over a record element needs the element first
+                for m in re.finditer(r'struct (\w+)', txt):
+                    if m.group(1) in self.emitted_types: visit(m.group(1))
             done.append(cn)
         for cn in recs: visit(cn)
         return done
